@@ -108,6 +108,12 @@ func (w *World) VerifyFunction(fn *ssa.Function, opts VerifyOpts) (res *FuncResu
 	}
 	fr.Lvl = Var("lvl", SInt)
 	st.ghost["$out"] = SV{T: Var("out0", SString), Ty: SType{G: types.Typ[types.String]}}
+	{
+		anyT := types.NewSlice(types.NewInterfaceType(nil, nil))
+		pv := Var("pargs0", w.SortOf(anyT))
+		st.ghost["$pargs"] = SV{T: pv, Ty: SType{G: anyT}}
+		st.Assume(Ge(w.SliceLen(pv), IntLit(0)))
+	}
 	if fr.Ctr != nil && len(fr.Ctr.CallbackParams) > 0 {
 		st.ghost["$ncalls"] = SV{T: Var("ncalls0", SInt), Ty: tInt}
 		st.Assume(Ge(Var("ncalls0", SInt), IntLit(0)))
